@@ -1,5 +1,4 @@
 # reasons for properties without a registered check (read by tools/mkmanifest.py)
 NOT_CLAIMED_REASON = {
     'C17': 'check not finished yet: engine tlssession (whole-program Qsmtpd with a real TLS client, OpenSSL as oracle) is under construction; the technique applies (state/buffer logic of STARTTLS), see DESIGN.md section 6',
-    'C18': 'check not finished yet: engine tlssw (real starttlsr.c/conn_mx.c with scripted OpenSSL stand-ins) is built and proved, its fixes are being reworked so that the unedited test suite passes; see DESIGN.md section 6',
 }
